@@ -196,6 +196,63 @@ func verifProjCommit(c *channeldb.ChannelCommitment) string {
 	return b.String()
 }
 
+// verifAddPayload renders the optional TLV payload of an HTLC canonically.
+func verifAddPayload(bpRec lnwire.BlindingPointRecord, crs lnwire.CustomRecords) (string, string) {
+	var bp []byte
+	bpRec.WhenSome(func(r tlv.RecordT[lnwire.BlindingPointTlvType, *btcec.PublicKey]) {
+		if r.Val != nil {
+			bp = r.Val.SerializeCompressed()
+		}
+	})
+	var crKeys []uint64
+	for k := range crs {
+		crKeys = append(crKeys, k)
+	}
+	sort.Slice(crKeys, func(i, j int) bool { return crKeys[i] < crKeys[j] })
+	cr := ""
+	for _, k := range crKeys {
+		cr += fmt.Sprintf("%d=%x,", k, crs[k])
+	}
+	return fmt.Sprintf("%x", bp), cr
+}
+
+// checkDurablePayload: every HTLC of a persisted commitment of party i still
+// carries the onion blob, blinding point and custom records of the
+// update_add_htlc that created it (the ledger remembers them). A restart
+// rebuilds the next commitments from the restored update log, so a field the
+// restore drops disappears from disk one commitment later and the
+// live-vs-reloaded comparison cannot see it.
+func (e *verifE1) checkDurablePayload(i int, which string, c *channeldb.ChannelCommitment) {
+	wantOnion := sha256.Sum256(verifOnion[:])
+	for _, h := range c.Htlcs {
+		off := i
+		if h.Incoming {
+			off = 1 - i
+		}
+		var rec *verifE1Htlc
+		for k := len(e.htlcs) - 1; k >= 0; k-- {
+			x := e.htlcs[k]
+			if x.Offerer == off && x.ID == h.HtlcIndex && x.Hash == h.RHash && x.Amt == h.Amt {
+				rec = x
+				break
+			}
+		}
+		if rec == nil {
+			continue
+		}
+		e.vc.Count("oracle_durable_payload", 1)
+		bp, cr := verifAddPayload(h.BlindingPoint, h.CustomRecords)
+		if bp != rec.BP || cr != rec.CR || sha256.Sum256(h.OnionBlob[:]) != wantOnion {
+			e.viol("durable_equal", "htlc-payload:"+which,
+				fmt.Sprintf("%s: persisted %s commitment h=%d htlc id=%d (incoming=%v) lost part of its add payload: "+
+					"blinding point %q want %q, custom records %q want %q, onion ok=%v",
+					e.parties[i].Name, which, c.CommitHeight, h.HtlcIndex, h.Incoming, bp, rec.BP, cr, rec.CR,
+					sha256.Sum256(h.OnionBlob[:]) == wantOnion))
+			return
+		}
+	}
+}
+
 func verifProjSnap(s *verifCommitSnap) string {
 	return fmt.Sprintf("h=%d bal=%v fee=%d kw=%d tx=%v htlcs=%+v", s.Height, s.Bal, s.FeeSat,
 		s.FeePerKw, s.TxID, s.Htlcs)
@@ -245,6 +302,11 @@ func (e *verifE1) checkFork(i int) {
 		e.viol("durable_equal", "RemoteCommitment",
 			fmt.Sprintf("%s: reloaded RemoteCommitment differs:\nlive   %s\nreload %s", p.Name, a, b))
 		return
+	}
+	e.checkDurablePayload(i, "local", &fk.state.LocalCommitment)
+	e.checkDurablePayload(i, "remote", &fk.state.RemoteCommitment)
+	if diff, err := fk.state.RemoteCommitChainTip(); err == nil && diff != nil {
+		e.checkDurablePayload(i, "remote-tip", &diff.Commitment)
 	}
 	// (c,d) restored chains equal the live chains for everything durable.
 	lt := verifSnapOf(i, "local", L.commitChains.Local.tail())
